@@ -413,6 +413,24 @@ def taskDeadline (state : Json) (entered : Rat) : Option Rat :=
   | some (.num n) => some (entered + (n : Rat) * 1000)
   | _ => none
 
+/-- the Task's own deadline as `asl_state_Task_delegate` computes it: a truthy `TimeoutSecondsPath` is applied to the
+state's *raw* input (not the effective one) — an integer: that many seconds after the entry; `true`: one second (a
+Python bool is an int); anything else: 0 seconds, the Task times out at once; a path that matches nothing, or a value
+that is no path: `States.Runtime` —, otherwise `TimeoutSeconds` (`taskDeadline`).  `HeartbeatSeconds` /
+`HeartbeatSecondsPath` are not implemented by the engine (state_engine.py names them in a comment only): no
+heartbeat is expected, the fields are ignored. -/
+def taskOwnDeadline (state data ctx : Json) (entered : Rat) : Except PErr (Option Rat) :=
+  if isTrue (fld state "TimeoutSecondsPath") then
+    match fldStr state "TimeoutSecondsPath" with
+    | some p =>
+      match applyPath data ctx (some p) with
+      | .error e => .error e
+      | .ok (.num n) => .ok (some (entered + (n : Rat) * 1000))
+      | .ok (.bool true) => .ok (some (entered + 1000))
+      | .ok _ => .ok (some entered)
+    | none => .error .pathMatch
+  else .ok (taskDeadline state entered)
+
 /-- when and how a task invocation made at `now` ends: `(instant, timed out?)`.  The reply counts if it
 arrives strictly before the deadline; otherwise the Task times out at the deadline exactly.  `none`: the
 worker never answers and there is no deadline. -/
@@ -711,9 +729,13 @@ def runState (env : Env) : Nat → Json → Str → Json → Json → Json → N
           match tmplOpt env input ctx (fld state "Parameters") with
           | .error pe => fail pe st
           | .ok params =>
+            -- the Task's own deadline: TimeoutSecondsPath (on the raw input) or TimeoutSeconds
+            match taskOwnDeadline state data ctx st.clock with
+            | .error pe => fail pe st
+            | .ok own =>
             let (n, counts) := bump st.counts (fn, params)
             -- the limit in force: the earlier of the Task's own deadline and the execution's
-            let lim := taskLimit (taskDeadline state st.clock) env.deadline st.clock
+            let lim := taskLimit own env.deadline st.clock
             match taskArrival (env.delay fn params n) (lim.map (·.t)) st.clock with
             | none => (.unsupported (S "a worker that never answers a Task without TimeoutSeconds"), st)
             | some (tEnd, timedOut) =>
